@@ -23,11 +23,18 @@ MANIFEST = {
             "order; sticky components keep their value until the next qualifying event, non-sticky ones return to zero; totals are "
             "sums of step rewards at every point of an episode, restart at 0 after a reset, and are 0 for agents without components; "
             "the weighted-sum law holds over any commutative ring, and in any arithmetic with relative rounding error u the code's "
-            "left-to-right loop stays within ((1+u)^(n+1)-1)*sum|w*c| of it (abstract rounding function). "
+            "left-to-right loop stays within ((1+u)^(n+1)-1)*sum|w*c| of it (abstract rounding function). Ground truth: a model of "
+            "the simulator objects a component can reach and of the describe_state() methods that turn them into the dictionary; for "
+            "each component which live object its leaf is and which of its attributes decides the value (database file: the live File's "
+            "health_status at the end of the step, deleted files 0; web server: the responses of this step; browser: the last history "
+            "item). Unregistered or ill-formed component types are refused at load; a reset under an episode schedule is a fresh load "
+            "of that episode's configuration; the green component's reward_info write. "
             "Tie: Gen/Reward.lean regenerated from rewards.py / game.py / science.py / utils.py / interface.py on every run — the body "
             "of each calculate is TRANSLATED statement by statement into a small imperative language and proved, for all inputs, to "
             "compute what the component model computes (semantic tie: a meaning-preserving refactoring passes, a change of meaning "
-            "refutes the theorem); literal defaults; blunt text flags for the hand-transcribed functions. Differential rig R-rew "
+            "refutes the theorem); access_from_nested_dict is translated the same way (recursion included) and proved equal to the "
+            "model's look-up for every value and key list; literal defaults; blunt text flags for the remaining hand-transcribed "
+            "functions. Differential rig R-rew "
             "through the real PrimaiteGame.from_config (every sharing graph on <= 4 agents; several shares per agent; cycles of every "
             "length incl. self-sharing), the real science.py functions on EVERY graph with <= 4 nodes incl. self-loops and repeated "
             "neighbours (thorough: every loop-free graph on 5 nodes), real update_agents on synthetic state dictionaries (also leaves "
@@ -36,14 +43,20 @@ MANIFEST = {
             "PrimaiteGame runs with resets on the shipped and on generated scenarios. Python oracles on the implementation alone: "
             "declared sharing graph, cycle <=> rejected, same-step shared values, weighted sum, totals per episode, and a "
             "non-interference recheck (each calculate re-run on a copy with the state cut down to its own leaf and the item fields "
-            "outside its proved read-set scrambled).",
+            "outside its proved read-set scrambled), and a LIVE-OBJECT oracle: after every real step each component's value is "
+            "recomputed from the live simulator objects (never through describe_state()), with an independent record of the HTTP "
+            "responses each web server sent in the step; the model evaluates every component on describeT(live objects) and on the real "
+            "dictionary and must agree (truthcheck). Named shapes (diamond, triangle, fan, chain) in every key / neighbour order, every "
+            "acyclic graph on <= 4 nodes in every key order, and through from_config every diamond / triangle on 4 agents in all 24 "
+            "declaration orders; shipped episode schedules (another configuration per episode).",
     "note": "C10-specific: the theorems are about exact rational arithmetic (weighted sum: any commutative ring). The rig compares "
             "exactly where float arithmetic is exact (dyadic families) and otherwise (decimal weights such as 0.4 / 0.05, shipped "
             "scenarios as they are) gives the model the exact value of every double and requires the implementation's floats to lie "
             "within the accumulated forward rounding bound whose per-sum factor is the one proved in Lemmas/RewardRounding.lean; that "
             "CPython floats are a rounding function with u = 2^-53 (IEEE-754, no overflow/underflow) is assumed, not proved. How "
-            "describe_state() PRODUCES the dictionary from the simulator objects is not modelled (the dictionary is the model's "
-            "input); for large real dictionaries the rig sends their projection on the components' own key paths, which is proved "
+            "describe_state() produces the dictionary is modelled only for the objects and keys a reward component can reach "
+            "(Model/RewardTruth.lean) and tied by the live-object oracle and truthcheck on real runs, not by a translation of those "
+            "methods; how the simulator UPDATES those objects during a step is not part of C10; for large real dictionaries the rig sends their projection on the components' own key paths, which is proved "
             "invisible to access_from_nested_dict on those paths.",
     "technique": "Lean 4 theorems over executable models of the graph functions and the reward layer; components tied by a "
                  "source-to-AST translation proved equivalent to the models; model tied by regenerated tables and a differential rig",
@@ -487,7 +500,7 @@ def _families(ctx: Ctx) -> List[Tuple[str, dict]]:
         cases.append(("badleaf", rig.gen_game_case(rng, n, arcs, rng.shuffle(list(range(n))), n_steps=rng.range(1, 6), rich=True,
                                                    bad_leaves=True)))
     # several episodes: resets inside the run (totals restart at 0), agents without reward components / without reward_function
-    for k in range(ctx.scale(250, 5000)):
+    for k in range(ctx.scale(200, 5000)):
         n = rng.range(1, 4)
         lab = rng.shuffle(list(range(n)))
         arcs = [(lab[u], lab[v]) for u in range(n) for v in range(n) if u < v and rng.chance(1, 2)]
@@ -513,11 +526,11 @@ def _families(ctx: Ctx) -> List[Tuple[str, dict]]:
     # agents with TWO OR MORE shared-reward components (also two components naming the same agent), the shares shuffled among
     # the agent's other components; acyclic, or cyclic through a share chosen at random among the hub's shares; several steps with
     # changing rewards, so that a dependency evaluated too late shows as a stale value
-    for k in range(ctx.scale(400, 8000)):
+    for k in range(ctx.scale(300, 8000)):
         cases.append(("multishare", _multishare_case(rng, decimal=False)))
     # decimal literals (0.4, 0.05, 0.33 ...), code lists of any length: the model computes on the exact values of the doubles,
     # the implementation's floats must lie within the accumulated rounding bound
-    for k in range(ctx.scale(250, 5000)):
+    for k in range(ctx.scale(200, 5000)):
         if rng.chance(1, 3):
             cases.append(("decimal", _multishare_case(rng, decimal=True)))
         else:
@@ -534,7 +547,7 @@ def _families(ctx: Ctx) -> List[Tuple[str, dict]]:
     cases.append(("env-asis", rig.gen_env_case(rng, ctx.scale(40, 128), "uc2", "asis")))
     shipped = list(rig.ENV_SHIPPED)
     for stem in (shipped if ctx.thorough else shipped[:3] + rng.shuffle(shipped[3:])[:4]):
-        for mode in (("asis", "dyadic") if ctx.thorough or stem.startswith("uc7") else (rng.choice(["asis", "dyadic"]),)):
+        for mode in (("asis", "dyadic") if ctx.thorough or stem == "uc7_config" else (rng.choice(["asis", "dyadic"]),)):
             cases.append(("env-shipped", rig.gen_env_case(rng, ctx.scale(24, 96), "shipped:" + stem, mode)))
     # shipped episode SCHEDULES: every reset builds the next episode from another configuration (real EpisodeListScheduler)
     for sd in (rig.ENV_SCHEDULES if ctx.thorough else rig.ENV_SCHEDULES[:2]):
